@@ -288,6 +288,10 @@ pub fn property() -> Property {
       "share points come from OsRng",
       "altering x when t = 1 yields another honest share of the same constant polynomial and is not demanded to be rejected",
     ],
-    subs: vec![prop_sub("mixtures_and_faults", 6000, 150000, strat, oracle)],
+    subs: vec![
+      prop_sub("mixtures_and_faults", 6000, 150000, strat, oracle),
+      crate::fuzzentry::fuzz_sub("fuzzbytes_recover", "recover", "C05", 10000, 200000),
+      crate::fuzzentry::artefact_sub("artefact_recover", "recover", "C05"),
+    ],
   }
 }
